@@ -367,12 +367,7 @@ class Engine:
             v = self.expr(value, st, hint=hint)
             st.env[tgt.id] = v; return
         if isinstance(tgt, ast.Tuple):
-            v = self.expr(value, st)
-            if not isinstance(v, PTup) or len(v.items) != len(tgt.elts): raise Unsupported('tuple assignment')
-            for e, x in zip(tgt.elts, v.items):
-                if not isinstance(e, ast.Name): raise Unsupported('nested tuple target')
-                st.env[e.id] = x
-            return
+            self.unpack(tgt, self.expr(value, st), st); return
         if isinstance(tgt, ast.Attribute):
             obj = self.expr(tgt.value, st)
             if isinstance(obj, PRef) and isinstance(obj.t, TObj) and obj.t.has_field(tgt.attr):
@@ -389,6 +384,22 @@ class Engine:
                 k = self.expr(tgt.slice, st); v = self.expr(value, st, hint=base.t.v)
                 self.dict_set(st, base, self.coerce(st, k, base.t.k), self.coerce(st, v, base.t.v)); self.escape(st, v); return
         raise Unsupported('assignment target ' + ast.unparse(tgt))
+
+    def unpack(self, tgt, v, st):
+        """a, (b, c) = value   (tuples structurally; a list unpacked into n names needs len == n)"""
+        if isinstance(tgt, ast.Name): st.env[tgt.id] = v; return
+        if not isinstance(tgt, ast.Tuple): raise Unsupported('unpacking target ' + ast.unparse(tgt))
+        if isinstance(v, PTup):
+            if len(v.items) != len(tgt.elts): raise Unsupported('tuple assignment arity')
+            for e, x in zip(tgt.elts, v.items): self.unpack(e, x, st)
+            return
+        vl = self.as_list(v)
+        if isinstance(vl, PRef) and isinstance(vl.t, TList):
+            th = vl.t.th(); cur = self.term(st, vl)
+            self.oblige(st, 'safety', 'unpack-length[%s]' % ast.unparse(tgt), th.Len(cur) == len(tgt.elts))
+            for i, e in enumerate(tgt.elts): self.unpack(e, self.from_term(st, vl.t.elem, th.At(cur, i)), st)
+            return
+        raise Unsupported('unpacking of ' + ast.unparse(tgt))
 
     def expr_type_peek(self, e, st):
         if isinstance(e, ast.Name) and e.id in st.env and isinstance(st.env[e.id], (PV, PRef)): return st.env[e.id].t
